@@ -60,16 +60,38 @@ pub struct Res {
     pub layers: Vec<Value>,
     pub pay: Value,
     pub err: ErrP,
+    /// what the convenience accessors of a whole-packet result report (vlan(), vlan_ids(), ether_payload(), ip_payload(), ...)
+    pub conv: Value,
+}
+pub fn no_conv() -> Value {
+    json!({"has": 0, "vlan_ids": [], "vlan": [], "epay": no_pay(), "ipay": no_pay(), "pet": -2, "frag": -2})
+}
+fn vlan_conv(ids: &[VlanId], v: Option<(i64, i64, i64)>) -> (Vec<i64>, Vec<i64>) {
+    (ids.iter().map(|x| x.value() as i64).collect(), match v { None => vec![0, -1, -1], Some((n, a, b)) => vec![n, a, b] })
+}
+fn vlan_slice_ids(v: &Option<VlanSlice>) -> Option<(i64, i64, i64)> {
+    match v {
+        None => None,
+        Some(VlanSlice::SingleVlan(s)) => Some((1, s.vlan_identifier().value() as i64, -1)),
+        Some(VlanSlice::DoubleVlan(d)) => Some((2, d.outer.vlan_identifier().value() as i64, d.inner.vlan_identifier().value() as i64)),
+    }
+}
+fn vlan_hdr_ids(v: &Option<VlanHeader>) -> Option<(i64, i64, i64)> {
+    match v {
+        None => None,
+        Some(VlanHeader::Single(s)) => Some((1, s.vlan_id.value() as i64, -1)),
+        Some(VlanHeader::Double(d)) => Some((2, d.outer.vlan_id.value() as i64, d.inner.vlan_id.value() as i64)),
+    }
 }
 impl Res {
     pub fn new() -> Res {
-        Res { v: "ok", layers: vec![], pay: no_pay(), err: ErrP::none() }
+        Res { v: "ok", layers: vec![], pay: no_pay(), err: ErrP::none(), conv: no_conv() }
     }
     pub fn err(e: ErrP) -> Res {
-        Res { v: "err", layers: vec![], pay: no_pay(), err: e }
+        Res { v: "err", layers: vec![], pay: no_pay(), err: e, conv: no_conv() }
     }
     pub fn json(&self, ctx: &Ctx) -> Value {
-        json!({"v": self.v, "layers": self.layers, "pay": self.pay, "err": self.err.json(), "oob": ctx.oob.get()})
+        json!({"v": self.v, "layers": self.layers, "pay": self.pay, "err": self.err.json(), "oob": ctx.oob.get(), "conv": self.conv})
     }
 }
 
@@ -438,6 +460,11 @@ pub fn sliced(ctx: &Ctx, p: &SlicedPacket) -> Res {
     if let Some(t) = &p.transport {
         transport_layer(ctx, &mut r, t, -1);
     }
+    let (ids, vl) = vlan_conv(&p.vlan_ids(), vlan_slice_ids(&p.vlan()));
+    r.conv = json!({"has": 1, "vlan_ids": ids, "vlan": vl,
+                    "epay": p.ether_payload().map(|e| ether_pay(ctx, &e)).unwrap_or_else(no_pay),
+                    "ipay": p.ip_payload().map(|e| ip_pay(ctx, e)).unwrap_or_else(no_pay),
+                    "pet": p.payload_ether_type().map(|e| e.0 as i64).unwrap_or(-1), "frag": b2i(p.is_ip_payload_fragmented())});
     r
 }
 
@@ -486,6 +513,10 @@ pub fn lax_sliced(ctx: &Ctx, p: &LaxSlicedPacket) -> Res {
     if let Some((e, l)) = &p.stop_err {
         r.err = e.errp().with_stop(layer_s(*l));
     }
+    let (ids, vl) = vlan_conv(&p.vlan_ids(), vlan_slice_ids(&p.vlan()));
+    r.conv = json!({"has": 1, "vlan_ids": ids, "vlan": vl,
+                    "epay": p.ether_payload().map(|e| lax_ether_pay(ctx, &e)).unwrap_or_else(no_pay),
+                    "ipay": p.ip_payload().map(|e| lax_ip_pay(ctx, e)).unwrap_or_else(no_pay), "pet": -2, "frag": -2});
     r
 }
 
@@ -595,6 +626,8 @@ pub fn headers(ctx: &Ctx, p: &PacketHeaders) -> Res {
         transport_hdr_layer(&mut r, t);
     }
     r.pay = payload_slice(ctx, &p.payload);
+    let (ids, vl) = vlan_conv(&p.vlan_ids(), vlan_hdr_ids(&p.vlan()));
+    r.conv = json!({"has": 2, "vlan_ids": ids, "vlan": vl, "epay": no_pay(), "ipay": no_pay(), "pet": -2, "frag": -2});
     r
 }
 pub fn lax_headers(ctx: &Ctx, p: &LaxPacketHeaders) -> Res {
@@ -615,5 +648,7 @@ pub fn lax_headers(ctx: &Ctx, p: &LaxPacketHeaders) -> Res {
     if let Some((e, l)) = &p.stop_err {
         r.err = e.errp().with_stop(layer_s(*l));
     }
+    let (ids, vl) = vlan_conv(&p.vlan_ids(), vlan_hdr_ids(&p.vlan()));
+    r.conv = json!({"has": 2, "vlan_ids": ids, "vlan": vl, "epay": no_pay(), "ipay": no_pay(), "pet": -2, "frag": -2});
     r
 }
